@@ -191,28 +191,60 @@ def words (e : Endian) (l : List Nat) : Bytes := l.flatMap (fun v => e.enc 4 v)
 def patchWords (e : Endian) (data : Bytes) (ws : List (Nat × Nat)) : Bytes :=
   ws.foldl (fun d w => d.take w.1 ++ e.enc 4 w.2 ++ d.drop (w.1 + 4)) data
 
+/-! The canonical image of `K` (C02), piece by piece. -/
+
+/-- Internal pointers ascending by cell address. -/
+def sortedPointers (K : Content) : List (Nat × Nat) := K.pointers.mergeSort byAddr
+
+/-- Strings ascending by cell address ("order of use"). -/
+def sortedStrings (K : Content) : List (Nat × Bytes) := K.strings.mergeSort byAddr
+
+/-- Labels ascending by address (little-endian) or by name list, then address (big-endian). -/
+def sortedLabels (e : Endian) (K : Content) : List (Nat × List Bytes) :=
+  match e with
+  | .little => K.labels.mergeSort byAddr
+  | .big => K.labels.mergeSort bucketLe
+
+/-- The label table entries `(address, name)` in table order. -/
+def labelEntries (e : Endian) (K : Content) : List (Nat × Bytes) :=
+  (sortedLabels e K).flatMap (fun p => p.2.map (fun n => (p.1, n)))
+
+/-- The strings of the text section: label names in table order, then strings in order of first
+use, every distinct string once. -/
+def stored (e : Endian) (K : Content) : List Bytes :=
+  dedup ((labelEntries e K).map (·.2) ++ (sortedStrings K).map (·.2))
+
+/-- String cells grouped by string in order of first use, ascending inside a group. -/
+def stringGroups (K : Content) : List Nat :=
+  (dedup ((sortedStrings K).map (·.2))).flatMap
+    (fun s => ((sortedStrings K).filter (fun p => p.2 = s)).map (·.1))
+
+/-- The pointer table: internal pointer cells ascending, then the string groups. -/
+def ptrTable (K : Content) : List Nat := (sortedPointers K).map (·.1) ++ stringGroups K
+
+def canonTextStart (e : Endian) (K : Content) : Nat :=
+  K.data.length + 4 * (ptrTable K).length + 8 * (labelEntries e K).length
+
+/-- The data with every pointer word and string offset patched in. -/
+def canonData (enc : Bytes → Option Bytes) (e : Endian) (K : Content) : Bytes :=
+  patchWords e K.data (sortedPointers K ++
+    (sortedStrings K).map (fun p => (p.1, canonTextStart e K + offsetIn enc (stored e K) p.2)))
+
+def labelTable (enc : Bytes → Option Bytes) (e : Endian) (K : Content) : List Nat :=
+  (labelEntries e K).flatMap (fun p => [p.1, offsetIn enc (stored e K) p.2])
+
+def textSection (enc : Bytes → Option Bytes) (e : Endian) (K : Content) : Bytes :=
+  (stored e K).flatMap (entry enc)
+
 /-- The canonical image of `K` (C02): header totals; data with the pointer words patched;
 internal pointer cells ascending, then string cells grouped by string in order of first use
 (ascending inside a group); labels ascending by address (little-endian) or by name list then
 address (big-endian); text section = label names in table order, then strings in order of first
 use, every distinct string stored once. -/
 def canonical (enc : Bytes → Option Bytes) (e : Endian) (K : Content) : Bytes :=
-  let ptrs := K.pointers.mergeSort byAddr
-  let strs := K.strings.mergeSort byAddr
-  let lbls := match e with
-    | .little => K.labels.mergeSort byAddr
-    | .big => K.labels.mergeSort bucketLe
-  let labelEntries := lbls.flatMap (fun p => p.2.map (fun n => (p.1, n)))
-  let stored := dedup (labelEntries.map (·.2) ++ strs.map (·.2))
-  let groups := (dedup (strs.map (·.2))).flatMap (fun s => (strs.filter (fun p => p.2 = s)).map (·.1))
-  let ptrTable := ptrs.map (·.1) ++ groups
-  let textStart := K.data.length + 4 * ptrTable.length + 8 * labelEntries.length
-  let data := patchWords e K.data
-    (ptrs ++ strs.map (fun p => (p.1, textStart + offsetIn enc stored p.2)))
-  let labelTable := labelEntries.flatMap (fun p => [p.1, offsetIn enc stored p.2])
-  let text := stored.flatMap (entry enc)
-  let fileSize := 0x20 + textStart + text.length
-  words e [fileSize, K.data.length, ptrTable.length, labelEntries.length] ++ List.replicate 16 0
-    ++ data ++ words e ptrTable ++ words e labelTable ++ text
+  words e [0x20 + canonTextStart e K + (textSection enc e K).length, K.data.length,
+      (ptrTable K).length, (labelEntries e K).length] ++ List.replicate 16 0
+    ++ canonData enc e K ++ words e (ptrTable K) ++ words e (labelTable enc e K)
+    ++ textSection enc e K
 
 end Mila.Spec.Image
